@@ -514,6 +514,7 @@ Proc(e) ==
                             !.drift = IF ~IsNone(pred) /\ pred # S THEN ToJson(DiffS(pred, S))
                                       ELSE IF m \in DOMAIN meta /\ meta[m].n # S.n THEN "stored bucket count differs from BucketsFromParam(creation parameter)"
                                       ELSE IF wf /\ FreeOKD(S, D) /\ ~PadOKD(S, D) THEN "bytes behind a record are not zero"
+                                      ELSE IF ~(ClassSizesOK(S.kf) /\ ClassSizesOK(S.vf)) THEN "a slot size is not one of the design's class values"
                                       ELSE "",
                             !.meta = IF m \in DOMAIN meta THEN Set(meta, m, [meta[m] EXCEPT !.n = S.n]) ELSE meta,
                             \* the design layer is advanced only from a sound state (its operators are partial on
@@ -570,21 +571,23 @@ Proc(e) ==
                 (IF /\ Len(R) > 0 /\ R[1][1] = e.from /\ R[Len(R)][2] = e.to
                     /\ \A i \in 1..(Len(R) - 1) : R[i + 1][1] = R[i][2] + 1
                  THEN {} ELSE {"TOOL.probe_runs"})
-                \cup (IF \A i \in 1..Len(R) : \A x \in R[i][1]..R[i][2] : ValSlot(x) = R[i][3] /\ ValEnc(x) = R[i][4]
-                      THEN {} ELSE {"C09.slot_arith"})
-                \cup (IF \A i \in 1..Len(R) : \A x \in R[i][1]..R[i][2] : ValActual(x, R[i][3]) <= R[i][3] /\ R[i][3] % 8 = 0
-                      THEN {} ELSE {"C09.fits"})]
+                \* the property: the slot the CRATE reserves holds the record the crate writes into it
+                \cup (IF \A i \in 1..Len(R) : \A x \in R[i][1]..R[i][2] : ValActual(x, R[i][3]) <= R[i][3] /\ R[i][3] % 8 = 0 /\ R[i][3] >= 16
+                      THEN {} ELSE {"C09.fits"}),
+                         \* design fidelity: the crate's arithmetic is AbyLayout's, for every length
+                         !.drift = IF \A i \in 1..Len(R) : \A x \in R[i][1]..R[i][2] : ValSlot(x) = R[i][3] /\ ValEnc(x) = R[i][4]
+                                   THEN "" ELSE "value slot arithmetic of the crate differs from AbyLayout"]
       [] e.ev = "probe_key" ->
             LET R == e.runs IN
             [base EXCEPT !.fails =
                 (IF /\ Len(R) > 0 /\ R[1][1] = e.from /\ R[Len(R)][2] = e.to
                     /\ \A i \in 1..(Len(R) - 1) : R[i + 1][1] = R[i][2] + 1
                  THEN {} ELSE {"TOOL.probe_runs"})
-                \cup (IF \A i \in 1..Len(R) : \A x \in R[i][1]..R[i][2] : KeySlot(x, e.voff, e.nxt) = R[i][3] /\ KeyEnc(x, e.voff, e.nxt) = R[i][4]
-                      THEN {} ELSE {"C09.slot_arith"})
                 \cup (IF \A i \in 1..Len(R) : \A x \in R[i][1]..R[i][2] :
                             KeyActual(x, e.voff, e.nxt, R[i][3]) <= R[i][3] /\ R[i][3] % 8 = 0 /\ FreeActual(R[i][3]) <= R[i][3]
-                      THEN {} ELSE {"C09.fits"})]
+                      THEN {} ELSE {"C09.fits"}),
+                         !.drift = IF \A i \in 1..Len(R) : \A x \in R[i][1]..R[i][2] : KeySlot(x, e.voff, e.nxt) = R[i][3] /\ KeyEnc(x, e.voff, e.nxt) = R[i][4]
+                                   THEN "" ELSE "key slot arithmetic of the crate differs from AbyLayout"]
       [] e.ev = "mutate_file" ->
             \* a signature byte of one of the files was changed / a foreign file swapped in
             LET mid == e.map IN
